@@ -24,7 +24,22 @@ COMPOSITE = [I('allset', 'h_allset', bound='message with EVERY extension set at 
              I('ni_public_empty', 'h_ni_public_empty', bound='no whitelisted field set x ANY subset of the 24 sensitive fields: public part stays empty; ' + STR, **BIG),
              I('ni_sensitive_full', 'h_ni_sensitive_full', bound='every sensitive field (and a fallback marker) set x ANY subset of the whitelisted fields (2^11): sensitive serialization unchanged; ' + STR, **BIG),
              I('ni_sensitive_empty', 'h_ni_sensitive_empty', bound='no sensitive field set x ANY subset of the whitelisted fields: sensitive part stays empty; ' + STR, **BIG)]
+TYPES = ['error', 'normal', 'chat', 'groupchat', 'headline']
+def WITH_TYPE(inst, t, **kw):
+    d = dict(inst); d['cdefs'] = dict(inst['cdefs']); d['cdefs']['VP_C17_TYPE'] = t; d['name'] = '%s_%s' % (inst['name'], TYPES[t]); d['bound'] = 'message type %s; %s' % (TYPES[t], inst['bound']); d.update(kw); return d
+def TEXT(t, c, **kw):
+    parts = [n for b, n in ((1, 'body'), (2, 'subject'), (4, 'thread'), (8, 'parent thread'), (16, 'stanza error')) if c & b]
+    return I('text_%s_c%d' % (TYPES[t], c), 'h_text', cdefs={'DOM_MAXCH': 6, 'DOM_MAXATTR': 16, 'VP_CASE': c, 'VP_C17_TYPE': t},
+             bound='message type %s with exactly: %s (others empty/absent); %s' % (TYPES[t], ', '.join(parts) or 'nothing', STR), **kw)
+TEXT_QUICK = [(3, 2), (3, 15), (0, 1 + 16), (4, 2 + 4), (1, 8)]      # groupchat x subject only (room subject change); groupchat x everything; error x body + stanza error; headline x subject + thread; normal x parent thread only
+TEXT_INSTANCES = [TEXT(t, c) for t, c in TEXT_QUICK] + [TEXT(t, c, tiers=('thorough',)) for t in range(5) for c in list(range(8)) + [12, 15] if (t, c) not in TEXT_QUICK] + [TEXT(2, 16 + 2, tiers=('thorough',))]
 KF_INSTANCES = [I('kf_jmi', 'h_kf_jmi', known_finding=KF), I('kf_call_invite', 'h_kf_call_invite', known_finding=KF)]
+_by = {i['name']: i for i in COMPOSITE + FIELD_INSTANCES}
+# the non-interference / all-set / single-field instances again under the other message types
+TYPED = ([WITH_TYPE(_by['ni_public_empty'], t) for t in (3, 0)] + [WITH_TYPE(_by['ni_public_full'], 3)]
+         + [WITH_TYPE(_by['ni_public_empty'], t, tiers=('thorough',)) for t in (1, 4)] + [WITH_TYPE(_by['ni_public_full'], t, tiers=('thorough',)) for t in (0, 1, 4)]
+         + [WITH_TYPE(_by[n], t, tiers=('thorough',)) for n in ('ni_sensitive_empty', 'ni_sensitive_full', 'allset') for t in (0, 3)]
+         + [WITH_TYPE(_by[n], 3, tiers=('thorough',)) for n in ('f_subject', 'f_body', 'f_thread', 'f_e2ee_fallback_body')])
 SEND_TUS = TUS + ['src/client/QXmppClient.cpp']
 def SEND(c):
     what = '%s, returned message %s XEP-0380 encryption namespace, %s e2ee fallback body, payload %s' % ('reply(stanza, e2eeMetadata)' if c & 8 else 'sendSensitive(stanza)', 'WITH' if c & 1 else 'WITHOUT', 'with' if c & 2 else 'without',
@@ -35,7 +50,7 @@ SPEC = dict(
     property='C17',
     groups=[
         dict(name='msg', harness='h.cpp', tus=TUS, models=MODELS, cxxdefs={'_GLIBCXX_RANGES': 1},
-             instances=COMPOSITE + FIELD_INSTANCES + KF_INSTANCES),
+             instances=COMPOSITE + TYPED + TEXT_INSTANCES + FIELD_INSTANCES + KF_INSTANCES),
         dict(name='send', harness='h_send.cpp', tus=SEND_TUS, models=MODELS + ['c17_send.c'], cxxdefs={'_GLIBCXX_RANGES': 1}, shadow_task=True,
              instances=SEND_INSTANCES),
     ],
